@@ -23,18 +23,21 @@ func ascendingFromZero(idx ssa.Value) bool {
 		return ph, isC && one == 1 && isPhi
 	}
 	startsAt := func(ph *ssa.Phi, k int64, step ssa.Value) bool {
-		if len(ph.Edges) != 2 {
+		if len(ph.Edges) < 2 {
 			return false
 		}
-		start, back := false, false
+		// one entry edge with the start value; every other edge (several `continue`/`break`-to-header paths) carries the step
+		start, back := 0, 0
 		for _, e := range ph.Edges {
 			if k0, ok := constInt(e); ok && k0 == k {
-				start = true
+				start++
 			} else if e == step {
-				back = true
+				back++
+			} else {
+				return false
 			}
 		}
-		return start && back
+		return start == 1 && back >= 1
 	}
 	if ph, ok := stepOf(idx); ok {
 		return startsAt(ph, -1, idx)
@@ -787,26 +790,26 @@ func c20(r *Report, s *Sem) {
 	}
 
 	// ---- R8
-	R8 := r.Rule("R8", "a handler's error ends its own session only: the context each session is served under derives from the serve entry point's context through the context package alone — never from a construct (an error group, a shared cancel) that one session's outcome can cancel for the others", 1)
+	R8 := r.Rule("R8", "a handler's error ends its own session only: the outcome of the per-session serving function is observed by nothing — it is started by a plain go statement (or called with its result discarded), never returned from a function handed to a group or stored, so no construct that cancels the shared serve context (an error group) can react to one session's error", 1)
 	if serving, _ := servingFunc(s); serving != nil {
 		n := 0
 		for _, c := range p.callersOf(serving) {
-			for _, arg := range c.Common().Args {
-				nm := namedOf(arg.Type())
-				if nm == nil || nm.Obj().Name() != "Context" || nm.Obj().Pkg() == nil || nm.Obj().Pkg().Path() != "context" {
-					continue
+			n++
+			used := ""
+			if v, ok := c.(ssa.Value); ok && v.Referrers() != nil {
+				for _, ref := range *v.Referrers() {
+					if _, isDbg := ref.(*ssa.DebugRef); !isDbg {
+						used = "the result of the serving function is used at " + p.instrPos(ref)
+					}
 				}
-				n++
-				r.Check(R8, "func "+fnName(c.Parent())+" / context handed to the session's serving function", p.instrPos(c), ctxFromParam(arg, 0),
-					"the context is "+describe(arg)+": it must be the accept loop's own context parameter (or context.With* of it), so that only a shutdown cancels it")
 			}
-			// the serving function's outcome is not observed: nothing another session depends on can react to it
-			if v, ok := c.(ssa.Value); ok && v.Referrers() != nil && len(*v.Referrers()) > 0 {
-				r.Check(R8, "func "+fnName(c.Parent())+" / outcome of one session is not fed back", p.instrPos(c), false, "the result of the serving function is used by its caller")
+			if _, isDefer := c.(*ssa.Defer); isDefer {
+				used = "the serving function is deferred"
 			}
+			r.Check(R8, "func "+fnName(c.Parent())+" / outcome of one session is not fed back", p.instrPos(c), used == "", used)
 		}
 		if n == 0 {
-			r.Undecided(R8, "serving function / context argument", "-", "no call site with a context argument")
+			r.Undecided(R8, "serving function / call sites", "-", "none found")
 		}
 	} else {
 		r.Undecided(R8, "anchor-unresolved:serving function", "-", "not found")
